@@ -152,6 +152,16 @@ def build():
     defs.append(("qr_request_gets_formerr", "bool", "true"))
     m = one(r"const\s+MAX_QUEUED_RESPONSES\s*:\s*DefMinMax<usize>\s*=\s*DefMinMax::new\(\s*(\d+)\s*,\s*(\d+)\s*,\s*(\d+)\s*\)\s*;", cn, "MAX_QUEUED_RESPONSES")
     defs.append(("max_queued_default", "N", "%d%%N" % num(m.group(1))))
+    # full response queue: the same response is retried after yielding; no drop, no bounded wait
+    enq = fn_body(cn, "do_enqueue_response")
+    one(r"loop\s*\{\s*match\s+self\.result_q_tx\.try_send\(response\)\s*\{", enq, "do_enqueue_response: loop { match try_send(response)")
+    one(r"Err\(TrySendError::Full\(unused_response\)\)\s*=>\s*\{\s*tokio::task::yield_now\(\)\.await\s*;\s*response\s*=\s*unused_response\s*;\s*\}",
+        enq, "do_enqueue_response: a full queue retries the same response (yield, reassign, loop)")
+    if re.search(r"send_timeout|timeout\s*\(|sleep|drop\s*\(", enq):
+        raise GenError("do_enqueue_response now bounds or abandons the wait for a queue slot")
+    if len(re.findall(r"\bbreak\b", enq)) != 2:
+        raise GenError("do_enqueue_response: expected exactly two `break`s (queued, connection closed)")
+    defs.append(("stream_full_queue_retries", "bool", "true"))
     return defs
 
 if __name__ == "__main__":
